@@ -927,12 +927,33 @@ type ssubEntry struct{ s, lo, hi, name, guard string }
 // is stated, and the derived fact is chained further (depth-limited), so that a sequence of reads that
 // each consume a prefix is related to offsets in the original input.
 func (e *Exec) ssubChain(b ssubEntry, depth int) {
+	e.ssubChainWith(b, depth, "")
+}
+
+// aliasNoted: the term x was equated with the substring name sub after substrings of x had already been
+// taken: relate those to what sub is a substring of.
+func (e *Exec) aliasNoted(x, sub string) {
+	if e.inAliasNoted {
+		return
+	}
+	e.inAliasNoted = true
+	defer func() { e.inAliasNoted = false }()
+	n := len(e.ssubReg)
+	for i := 0; i < n; i++ {
+		b := e.ssubReg[i]
+		if b.s == x && b.name != sub {
+			e.ssubChainWith(b, 1, sub)
+		}
+	}
+}
+
+func (e *Exec) ssubChainWith(b ssubEntry, depth int, only string) {
 	if depth > 3 || len(e.ssubReg) > 64 {
 		return
 	}
 	zero := bvLitI(64, 0)
 	for _, o := range e.ssubReg {
-		if o.name == b.name {
+		if o.name == b.name || (only != "" && o.name != only) {
 			continue
 		}
 		g := mkAnd(b.guard, o.guard, mkEq(b.s, o.name), app("bvsle", zero, b.lo), app("bvsle", b.lo, b.hi), app("bvsle", b.hi, bvSub(o.hi, o.lo)), app("bvsle", zero, o.lo), app("bvsle", o.lo, o.hi))
